@@ -31,11 +31,11 @@ KWARGS = [("name", "self.name", "KwName"), ("namespace", "self.namespace", "KwNa
           ("script", "self.script", "KwScript"), ("source", "self.source", "KwSource"),
           ("task_options_base", "self._task_options_base", "KwBase"),
           ("task_options_override", "new_task_options_update", "KwOverride"),
-          ("export_options", "export_options", "KwExport"),
+          ("export_options", {"options": "set(self._export_options)", "export_options": "export_options"}, "KwExport"),
           ("hash_includes", "self._hash_includes", "KwIncludes")]
 FWD = {
     "options": {"AsShipped": ["KwName", "KwNamespace", "KwVersion", "KwCompat", "KwScript", "KwSource", "KwBase",
-                              "KwOverride"]},
+                              "KwOverride", "KwExport"]},
     "export_options": {"AsShipped": ["KwName", "KwNamespace", "KwVersion", "KwCompat", "KwScript", "KwSource",
                                      "KwBase", "KwOverride", "KwExport"]},
 }
@@ -56,8 +56,6 @@ PINNED = {
     "Task.fullname": ("redun/task.py", "Task", "fullname"),
     "PartialTask.partial": ("redun/task.py", "PartialTask", "partial"),
     "PartialTask.options": ("redun/task.py", "PartialTask", "options"),
-    "task": ("redun/task.py", None, "task"),
-    "wraps_task": ("redun/task.py", None, "wraps_task"),
     "TaskRegistry.rename": ("redun/task.py", "TaskRegistry", "rename"),
     "compute_namespace": ("redun/namespace.py", None, "compute_namespace"),
     "hash_struct": ("redun/hashing.py", None, "hash_struct"),
@@ -155,12 +153,20 @@ def fields_of(elts, what):
     return out
 
 
-def hash_struct_return(stmt, what):
+def local_name(branch, what):
+    """the local variable a two-armed `if` assigns in both arms (its name is irrelevant)"""
+    t = [x.targets[0].id for arm in (branch.body, branch.orelse) for x in arm
+         if isinstance(x, ast.Assign) and len(x.targets) == 1 and isinstance(x.targets[0], ast.Name)]
+    if len(branch.body) != 1 or len(branch.orelse) != 1 or len(t) != 2 or t[0] != t[1]:
+        fail(f"{what}: expected one assignment to the same local in both arms", branch)
+    return t[0]
+
+
+def hash_struct_return(stmt, what, names):
     if not (isinstance(stmt, ast.Return) and is_call(stmt.value, "hash_struct", 1)):
         fail(f"{what}: expected `return hash_struct(...)`", stmt)
     elts, tail = list_plus(stmt.value.args[0], what)
     f = fields_of(elts, what)
-    names = {"hash_includes_hash": "FIncludes", "task_options_hash": "FOptions"}
     for t in tail:
         if t not in names:
             fail(f"{what}: unrecognised summand {t}", stmt)
@@ -181,13 +187,17 @@ def tr_calc_hash(mod):
         fail("Task._calc_hash: compat branch changed", s0)
     d["compat_first"] = True
     s1 = simple_if(body[1], "self._task_options_override", "Task._calc_hash")
-    if [src(s) for s in s1.body] != ["task_options_hash = [get_type_registry().get_hash(self._task_options_override)]"] \
-            or [src(s) for s in s1.orelse] != ["task_options_hash = []"]:
+    lo = local_name(s1, "Task._calc_hash (options)")
+    if [src(s) for s in s1.body] != [lo + " = [get_type_registry().get_hash(self._task_options_override)]"] \
+            or [src(s) for s in s1.orelse] != [lo + " = []"]:
         fail("Task._calc_hash: options-hash statement changed", s1)
     d["options_guard"] = True
     s2 = simple_if(body[2], "self._hash_includes", "Task._calc_hash")
-    if [src(s) for s in s2.body] != ["hash_includes_hash = sorted(map(get_type_registry().get_hash, self._hash_includes))"] \
-            or [src(s) for s in s2.orelse] != ["hash_includes_hash = []"]:
+    li = local_name(s2, "Task._calc_hash (includes)")
+    if li == lo or li == "source" or lo == "source":
+        fail("Task._calc_hash: locals clash", s2)
+    if [src(s) for s in s2.body] != [li + " = sorted(map(get_type_registry().get_hash, self._hash_includes))"] \
+            or [src(s) for s in s2.orelse] != [li + " = []"]:
         fail("Task._calc_hash: includes-hash statement changed", s2)
     d["includes_guard_sorted"] = True
     s3 = simple_if(body[3], "self.version is None", "Task._calc_hash")
@@ -199,8 +209,9 @@ def tr_calc_hash(mod):
             or [src(s) for s in fb.orelse] != ["source = get_func_source(self.func)"]:
         fail("Task._calc_hash: source fallback changed", fb)
     d["source_fallback"] = True
-    d["unversioned"] = hash_struct_return(s3.body[1], "Task._calc_hash (source layout)")
-    d["versioned"] = hash_struct_return(s3.orelse[0], "Task._calc_hash (version layout)")
+    names = {li: "FIncludes", lo: "FOptions"}
+    d["unversioned"] = hash_struct_return(s3.body[1], "Task._calc_hash (source layout)", names)
+    d["versioned"] = hash_struct_return(s3.orelse[0], "Task._calc_hash (version layout)", names)
     return d
 
 
@@ -302,6 +313,8 @@ def tr_clone(mod, name):
         if kw.arg is None or kw.arg not in table:
             fail(f"Task.{name}: unrecognised keyword {kw.arg!r}", kw.value)
         v, c = table[kw.arg]
+        if isinstance(v, dict):
+            v = v[name]
         if src(kw.value) != v:
             fail(f"Task.{name}: {kw.arg}={src(kw.value)} (expected {v})", kw.value)
         if c in got:
@@ -369,11 +382,32 @@ def tr_update_context(mod):
             fail(f"Task.update_context: unrecognised statement {src(s)!r}", s)
 
 
+def tr_task_decorator(mod):
+    """@task(...) hands name, namespace, version, compat, hash_includes and source to Task(...) unchanged."""
+    fn = find_last_func(mod, "task")
+    calls = [n for n in ast.walk(fn) if isinstance(n, ast.Call) and src(n.func) == "Task"]
+    if len(calls) != 1 or [src(a) for a in calls[0].args] != ["func"]:
+        fail("task(): expected exactly one Task(func, ...) call", fn)
+    kw = {k.arg: src(k.value) for k in calls[0].keywords}
+    exp = {"name": "name", "namespace": "namespace", "version": "version", "compat": "compat", "script": "script",
+           "task_options_base": "task_options_base", "export_options": "export_option_keys",
+           "hash_includes": "hash_includes", "source": "source"}
+    if kw != exp:
+        fail(f"task(): Task(...) keywords changed: {kw!r}", calls[0])
+    for n in ast.walk(fn):
+        if isinstance(n, (ast.Assign, ast.AugAssign, ast.AnnAssign)):
+            tg = n.targets if isinstance(n, ast.Assign) else [n.target]
+            for t in tg:
+                if isinstance(t, ast.Name) and t.id in ("name", "namespace", "version", "compat", "hash_includes", "source"):
+                    fail(f"task(): rebinds {t.id} before constructing the Task", n)
+
+
 def translate(pins: dict | None = None):
     """-> (coq text, pins found, (vt, vf))"""
     utils = load("redun/utils.py")
     task = load("redun/task.py")
     tr_update_context(task)
+    tr_task_decorator(task)
     vt = tr_get_func_source(utils)
     d = tr_calc_hash(task)
     sep = tr_format_fullname(task)
